@@ -14,7 +14,7 @@ from __future__ import annotations
 import ast
 import os
 
-from ..alg import Top, Finding
+from ..alg import Top, Finding, Sym
 from ..lossenv import LossEnv, SingleLoss, SystemLoss
 from ..report import Violation, Inconclusive
 from .. import effects
@@ -139,6 +139,57 @@ def run(chk):
     run_initial_index(chk, GenEnv(chk.repo), "C20.R4")
     from .C09 import run_first_draw
     run_first_draw(chk, chk.repo, "C20.R4")
+
+    # ---- R8: an object that is passed THROUGH jit as an argument (solve passes the loss and the generators through the jitted
+    #          step and the loop carry) may hold non-array data (slices, strings, functions, shapes) in STATIC fields only: such a
+    #          value in a dynamic field makes the jitted call raise where the eager one works
+    chk.rule("C20.R8", "objects that go through jit as arguments keep slices / strings / functions in static fields", floor=4)
+
+    def dynamic_non_arrays(obj, path="", seen=None):
+        from ..interp import Inst as _Inst, Closure as _Closure, BoundMethod as _BM
+        seen = seen if seen is not None else set()
+        out = []
+        if id(obj) in seen:
+            return out
+        seen.add(id(obj))
+        if isinstance(obj, _Inst):
+            for name in obj.dynamic_field_names():
+                out += dynamic_non_arrays(obj.fields[name], f"{path}.{name}" if path else name, seen)
+        elif isinstance(obj, dict):
+            for k_, v_ in obj.items():
+                out += dynamic_non_arrays(v_, f"{path}[{k_!r}]", seen)
+        elif isinstance(obj, (list, tuple)) and not hasattr(obj, '_fields'):
+            for i_, v_ in enumerate(obj):
+                out += dynamic_non_arrays(v_, f"{path}[{i_}]", seen)
+        elif isinstance(obj, (slice, str)) or isinstance(obj, (_Closure, _BM)) or (callable(obj) and getattr(obj, '__name__', '') == '<lambda>'):
+            out.append((path, type(obj).__name__ if not isinstance(obj, slice) else f"slice {obj}"))
+        return out
+
+    def go_static_nets():
+        from ..extern import OpaqueObj, make_world
+        w2 = make_world(chk.repo)
+        layer = lambda *a, **k: OpaqueObj(f"layer{a}")
+        eqx_list = ((layer, 2, 8), ((lambda x: x),), (layer, 8, 3))
+        create = w2.get("jinns.utils._pinn", "create_PINN")
+        nets = create(Sym('key'), eqx_list, "statio_PDE", 2, shared_pinn_outputs=(slice(0, 1), slice(1, 3)), slice_solution=slice(0, 2))
+        bad = []
+        for i_, n_ in enumerate(nets):
+            bad += [(f"PINN[{i_}].{p_}", t_) for p_, t_ in dynamic_non_arrays(n_)]
+        if bad:
+            raise Violation("network wrappers", f"non-array data in dynamic fields: {bad[:4]}", "slices / strings / functions held in static fields")
+        return f"{len(nets)} wrappers created with shared outputs: only arrays in their dynamic fields"
+    chk.run("C20.R8", "jinns.utils._pinn:create_PINN", {"shared_pinn_outputs": "two slices"}, go_static_nets, construct="static fields of the wrappers")
+    for eq_type, names in all_terms.items():
+        def go_static_loss(eq_type=eq_type, names=names):
+            S = SingleLoss(E, eq_type, 'PINN', d=2, m_u=2, terms=names, obs_slice=slice(0, 1),
+                           **({'bc_dim': slice(0, 1)} if eq_type != 'ODE' else {}))
+            bad = dynamic_non_arrays(S.loss)
+            if bad:
+                raise Violation("loss object", f"non-array data in dynamic fields: {bad[:4]}", "slices / strings / functions held in static fields")
+            return "only arrays in the dynamic fields of the loss"
+        chk.run("C20.R8", {"ODE": "jinns.loss._LossODE:LossODE", "statio_PDE": "jinns.loss._LossPDE:LossPDEStatio",
+                           "nonstatio_PDE": "jinns.loss._LossPDE:LossPDENonStatio"}[eq_type], {"loss": eq_type}, go_static_loss,
+                construct=f"static fields of the loss[{eq_type}]")
 
     # ---- R6: drawing a batch performs no write into the generator (frozen instances)
     chk.rule("C20.R6", "get_batch of every generator kind on a frozen generator performs no write into it", floor=6)
